@@ -445,6 +445,9 @@ func (e *Engine) callEffects(fn *ssa.Function, c *ssa.CallCommon, tracked map[*s
 // the static types of the callee's parameters.
 func (e *Engine) modifiesHeaps(callee *ssa.Function, spec *FuncSpec, loc string, hs map[string]string) {
 	name := strings.TrimSpace(loc)
+	if name == "nothing" {
+		return
+	}
 	name = strings.TrimPrefix(name, "*")
 	name = strings.TrimPrefix(name, "deref(")
 	isElems := strings.HasPrefix(name, "elems(")
@@ -663,7 +666,7 @@ func (e *Engine) verifyFunction(key string, extra *FuncSpec) (res *FuncResult) {
 	}
 	st := &State{guard: "true", cells: map[*Cell]Val{}, heaps: map[string]T{}}
 	st.alloc = fx.decls.Fresh("alloc0", sInt)
-	fx.assumes = append(fx.assumes, le("0", st.alloc), le(st.alloc, "1000000"))
+	fx.assumes = append(fx.assumes, le("1000", st.alloc)) // references 1..999 are package-level variables
 	var args []Val
 	for _, p := range fn.Params {
 		v := freshVal(fx.decls, shapeOf(p.Type()), "arg_"+p.Name())
@@ -738,9 +741,121 @@ func (e *Engine) verifyFunction(key string, extra *FuncSpec) (res *FuncResult) {
 			fx.oblige("ensures", fmt.Sprintf("%s/ensures/%s", path, clauseName(c, i)), out, t, fn.Pos(), c.Src)
 		}
 	}
+	if spec != nil && len(spec.Modifies) > 0 {
+		fr0.checkFrame(spec, pre, out, lets, path, fn)
+	}
 	res.Obligations = fx.obls
 	res.Cover = fx.cover
 	return res
+}
+
+type frameLoc struct {
+	heap   string // heap name
+	ref    T
+	window bool
+	lo, hi T // element window for E heaps
+}
+
+// checkFrame proves that nothing outside the modifies clause changed in
+// memory that existed at entry.
+func (fr *Frame) checkFrame(spec *FuncSpec, pre, out *State, lets map[string]CV, path string, fn *ssa.Function) {
+	fx := fr.fx
+	var locs []frameLoc
+	env := fr.envFor(pre, pre, lets)
+	env.fr = nil
+	for n, v := range fr.params {
+		env.vars[n] = cvOf(v)
+	}
+	addObj := func(sh *Shape, ref T, lo, hi int) {
+		for c := lo; c < hi; c++ {
+			locs = append(locs, frameLoc{heap: heapName(sh, c), ref: ref})
+		}
+	}
+	for _, m := range spec.Modifies {
+		m = strings.TrimSpace(m)
+		if m == "nothing" {
+			continue
+		}
+		e, err := parseExpr(strings.TrimPrefix(m, "*"))
+		if err != nil {
+			unsupp("modifies %q: %v", m, err)
+		}
+		switch x := e.(type) {
+		case *ECall:
+			if x.Fn == "elems" {
+				cv := env.eval(x.Args[0])
+				if cv.k != cvVal || cv.v.sh.kind != KSlice {
+					unsupp("modifies %s: not a slice", m)
+				}
+				ash := &Shape{kind: KArr, elem: cv.v.sh.elem, n: -1}
+				for c := 0; c < ash.ncomp(); c++ {
+					locs = append(locs, frameLoc{heap: heapName(ash, c), ref: cv.v.slRef(), window: true, lo: cv.v.slOff(), hi: add(cv.v.slOff(), cv.v.slLen())})
+				}
+				continue
+			}
+			if x.Fn == "deref" {
+				cv := env.eval(x.Args[0])
+				addObj(cv.v.sh.elem, cv.v.ts[0], 0, cv.v.sh.elem.ncomp())
+				continue
+			}
+		case *EField:
+			base := env.eval(x.X)
+			if base.k == cvVal && base.v.sh.kind == KPtr && base.v.sh.elem.kind == KStruct {
+				sh := base.v.sh.elem
+				for i, n := range sh.fnames {
+					if n == x.Name {
+						lo, hi := sh.fieldRange(i)
+						addObj(sh, base.v.ts[0], lo, hi)
+					}
+				}
+				continue
+			}
+		case *EIdent:
+			if strings.HasPrefix(m, "*") {
+				cv := env.eval(x)
+				if cv.k == cvVal && cv.v.sh.kind == KPtr && cv.v.ptr == nil {
+					addObj(cv.v.sh.elem, cv.v.ts[0], 0, cv.v.sh.elem.ncomp())
+					continue
+				}
+			}
+		}
+		unsupp("modifies clause %q not understood", m)
+	}
+	for _, h := range sortedKeys(out.heaps) {
+		final := out.heaps[h]
+		init := "|H0:" + sanitize(h) + "|"
+		if final == init {
+			continue
+		}
+		so := fx.heapSorts[h]
+		fx.decls.Raw(fmt.Sprintf("(declare-fun %s () %s)", init, so))
+		r := fx.decls.Fresh("frame_r", sInt)
+		var excl []T
+		var wins []frameLoc
+		for _, l := range locs {
+			if l.heap != h {
+				continue
+			}
+			if l.window {
+				wins = append(wins, l)
+			} else {
+				excl = append(excl, eq(r, l.ref))
+			}
+		}
+		existed := and(le("1", r), le(r, pre.alloc))
+		var cond T
+		if strings.HasPrefix(h, "E|") && len(wins) > 0 {
+			i := fx.decls.Fresh("frame_i", sInt)
+			var inWin []T
+			for _, w := range wins {
+				inWin = append(inWin, and(eq(r, w.ref), le(w.lo, i), lt(i, w.hi)))
+			}
+			cond = imp(and(existed, not(or(excl...)), not(or(inWin...))), eq(sel(sel(final, r), i), sel(sel(init, r), i)))
+		} else {
+			cond = imp(and(existed, not(or(excl...))), eq(sel(final, r), sel(init, r)))
+		}
+		fx.oblige("frame", fmt.Sprintf("%s/frame/%s", path, sanitize(h)), out, cond, fn.Pos(), "modifies "+strings.Join(spec.Modifies, ", "))
+	}
 }
 
 func shortKey(key string) string {
@@ -859,6 +974,9 @@ func (e *Engine) verifyLemma(name string) (res *FuncResult) {
 			if p.Type == "nat" && !bound {
 				fx.assumes = append(fx.assumes, le("0", cv.t))
 			}
+			if sty.k == cvVal && !bound {
+				fx.assumes = append(fx.assumes, typeInvariant(cv.v))
+			}
 		}
 		return
 	}
@@ -872,6 +990,34 @@ func (e *Engine) verifyLemma(name string) (res *FuncResult) {
 	}
 	for _, r := range lem.Requires {
 		fx.assumes = append(fx.assumes, env.eval(r.E).asBool())
+	}
+	// calls by contract: each starts from the same symbolic pre-state, so the
+	// lemma relates independent runs of the function(s) (self-composition)
+	for _, lc := range lem.Calls {
+		key := lem.Pkg + "." + lc.Fn
+		fn := e.lookupFunc(key)
+		spec := e.contracts.Funcs[key]
+		if fn == nil || spec == nil {
+			unsupp("lemma %s: call of %s needs a function with a contract", name, lc.Fn)
+		}
+		var args []Val
+		for i, a := range lc.Args {
+			if i >= len(fn.Params) {
+				unsupp("lemma %s: too many arguments for %s", name, lc.Fn)
+			}
+			args = append(args, env.toVal(env.eval(a), shapeOf(fn.Params[i].Type())))
+		}
+		run := st.clone()
+		fr := &Frame{fx: fx, fn: fn, path: "lemma:" + name + "/" + lc.Result, regs: map[ssa.Value]Val{}, cells: map[*ssa.Alloc]*Cell{}, iters: map[*ssa.Range]*Cell{}, params: map[string]Val{}}
+		res := fr.callWithSpec(fn, spec, args, run, token.NoPos)
+		if res != nil {
+			env.vars[lc.Result] = cvOf(*res)
+		}
+		// the post-state of this run is visible through post(<result>, expr)
+		if fx.lemmaStates == nil {
+			fx.lemmaStates = map[string]*State{}
+		}
+		fx.lemmaStates[lc.Result] = run
 	}
 	fx.cover = append(fx.cover, &Obligation{Name: "lemma:" + name + "/vacuity/requires_satisfiable", Kind: "cover", Guard: "true", Cond: "false", NAssume: len(fx.assumes), Func: fx.lemmaName})
 	for i, c := range lem.Ensures {
